@@ -74,6 +74,8 @@ pub enum Which {
     C11,
     /// bounds stage of C19: move-only / !Send values, borrows of the caller's stack
     C19,
+    /// nesting stage of C17: macros nested inside operands, captures, initial values, to depth 3
+    C17,
 }
 
 /// closing mode of the forced wrapper (C02): 0 explicit `<<<`, 1 implicit at the end of a step, 2 implicit at the end of the branch
@@ -91,7 +93,7 @@ fn gen_prog(rng: &mut TestRng, i: usize, which: Which) -> ChainProg {
             let (sp, c) = SPELLINGS[i % 22];
             (Some((c, sp == ">.", false)), 0)
         }
-        Which::C19 => (None, 0),
+        Which::C19 | Which::C17 => (None, 0),
         Which::C11 => {
             // every operator that takes expression operands; fold / try_fold (two operands) twice as often
             let hoistable = [Comb::Map, Comb::AndThen, Comb::Filter, Comb::Inspect, Comb::Then, Comb::Chain, Comb::FindMap, Comb::FilterMap, Comb::Partition, Comb::Find, Comb::Zip, Comb::Or, Comb::OrElse, Comb::MapErr, Comb::Fold, Comb::TryFold, Comb::Fold, Comb::TryFold];
@@ -103,6 +105,7 @@ fn gen_prog(rng: &mut TestRng, i: usize, which: Which) -> ChainProg {
         }
     };
     let mut branches = Vec::new();
+    let mut nestings: Vec<(String, String, usize)> = Vec::new();
     for b in 0..nb {
         let mut g = CG {
             rng,
@@ -116,6 +119,9 @@ fn gen_prog(rng: &mut TestRng, i: usize, which: Which) -> ChainProg {
             },
             ck: if which == Which::C10 { 0.5 } else { 0.0 },
             ns: if which == Which::C19 { 0.6 } else { 0.0 },
+            nest: if which == Which::C17 { 0.45 } else { 0.0 },
+            nest_depth: 0,
+            nest_log: vec![],
             wrappers: if which == Which::C02 { 0.3 } else { 0.12 },
             shapes: true,
             allow_deferred: !kind.is_try && !kind.is_async,
@@ -131,6 +137,13 @@ fn gen_prog(rng: &mut TestRng, i: usize, which: Which) -> ChainProg {
         let mut init_text = format!("inp::<{}>({})", init_ty.name(), b);
         let mut locals: Vec<String> = Vec::new();
         let mut borrowed = false;
+        if which == Which::C17 && !(b == 0 && force.is_some()) && rb(g.rng, 0.35) {
+            // the initial value is itself a macro invocation
+            let inner_from = g.any_ty(1);
+            let k = 300 + b as u32;
+            let inv = g.nested_invocation(&inner_from, &format!("inp::<{}>({})", inner_from.name(), k), &init_ty, "initial");
+            init_text = inv;
+        }
         if which == Which::C19 && rb(g.rng, 0.5) {
             // the branch borrows - shared or mutably - from a local of the calling function
             let it = Ty::Iter(Box::new(Ty::I64));
@@ -226,9 +239,10 @@ fn gen_prog(rng: &mut TestRng, i: usize, which: Which) -> ChainProg {
                 ops[n2 - 2].closed = true;
             }
         }
+        nestings.extend(g.nest_log.iter().cloned());
         branches.push(ChainBranch { locals, init_ty: init_ty.clone(), init_text: init_text.clone(), ops, fin });
     }
-    ChainProg { mac: mac.to_string(), branches }
+    ChainProg { mac: mac.to_string(), branches, nestings }
 }
 
 fn strategy(i: usize, which: Which) -> impl Strategy<Value = ChainProg> {
@@ -277,42 +291,54 @@ pub fn case_code(p: &ChainProg, idx: usize) -> (String, usize, usize, bool) {
         mac.push_str(&format!("    let __r = ::join::{}! {{\n        {}\n    }};\n    format!(\"{{:?}}\", __r)\n}}\n", p.mac, body.join(",\n        ")));
     }
     let ref_from = mac.matches('\n').count();
-    // ---- reference side
-    let mut defs = Vec::new();
-    let mut counter = 0usize;
-    let mut exprs = Vec::new();
-    for b in &p.branches {
-        let mut b2 = b.clone();
-        hoist_ref(&mut b2.ops, &mut defs, &mut counter);
-        let e = render_branch_ref(&b2, fam);
-        exprs.push(e);
-    }
-    // cross-branch order is not part of the property (steps interleave branches; threads run them
-    // concurrently): with several branches the callback trace is compared per branch
+    // ---- reference side: per branch, step by step; the block captures of a step are evaluated
+    // before the step's expression (README "Block captures"), in written order
     let concurrent = n >= 2;
+    let mut counter = 0usize;
+    let mut inner = String::new();
+    for (i, b) in p.branches.iter().enumerate() {
+        // split the top-level operators at `~`
+        let mut steps: Vec<Vec<COp>> = vec![Vec::new()];
+        for op in &b.ops {
+            if op.deferred {
+                steps.push(Vec::new());
+            }
+            steps.last_mut().unwrap().push(op.clone());
+        }
+        let mut prev = format!("({})", b.init_text);
+        let last = steps.len() - 1;
+        for (j, mut ops) in steps.into_iter().enumerate() {
+            let mut defs = Vec::new();
+            hoist_ref(&mut ops, &mut defs, &mut counter);
+            for d in &defs {
+                inner.push_str(&format!("    {}\n", d));
+            }
+            let mut e = prev.clone();
+            for op in &ops {
+                e = ref_apply_pub(e, op, fam);
+            }
+            let name = if j == last { format!("__b{}", i) } else { format!("__b{}_{}", i, j) };
+            if kind.is_async {
+                // the same requirement the task-spawning macros document
+                if kind.is_spawn && n >= 2 {
+                    inner.push_str(&format!("    let {} = require_task({}).await;\n", name, e));
+                } else {
+                    inner.push_str(&format!("    let {} = {}.await;\n", name, e));
+                }
+            } else if kind.is_spawn && n >= 2 {
+                inner.push_str(&format!("    let {} = require_thread(move || {});\n", name, e));
+            } else {
+                inner.push_str(&format!("    let {} = {};\n", name, e));
+            }
+            // the next step continues from this value (moved: iterator adaptors take `&mut self`)
+            prev = format!("{{ {} }}", name);
+        }
+    }
     let mut r = String::new();
     r.push_str(&format!("#[allow(unused, non_snake_case)]\nfn case_{}_ref() -> String {{\n    use jvrt::chainrt::*;\n", idx));
     for b in &p.branches {
         for l in &b.locals {
             r.push_str(&format!("    {}\n", l));
-        }
-    }
-    let mut inner = String::new();
-    for d in &defs {
-        inner.push_str(&format!("    {}\n", d));
-    }
-    for (i, e) in exprs.iter().enumerate() {
-        if kind.is_async {
-            // the same requirement the task-spawning macros document
-            if kind.is_spawn && n >= 2 {
-                inner.push_str(&format!("    let __b{} = require_task({}).await;\n", i, e));
-            } else {
-                inner.push_str(&format!("    let __b{} = {}.await;\n", i, e));
-            }
-        } else if kind.is_spawn && n >= 2 {
-            inner.push_str(&format!("    let __b{} = require_thread(move || {});\n", i, e));
-        } else {
-            inner.push_str(&format!("    let __b{} = {};\n", i, e));
         }
     }
     let names: Vec<String> = (0..n).map(|i| format!("__b{}", i)).collect();
@@ -465,6 +491,7 @@ pub fn run(id: &str, tier: &str, seed: u64) -> i32 {
         "C10" => Which::C10,
         "C11" => Which::C11,
         "C19" => Which::C19,
+        "C17" => Which::C17,
         _ => Which::C01,
     };
     let (count, inputs) = match (which, tier) {
@@ -479,6 +506,7 @@ pub fn run(id: &str, tier: &str, seed: u64) -> i32 {
     ev.rule = match which {
         Which::C01 => "programs: typed chains (random walk over i64 / usize / bool / () / Option / Result<_, i64> / Vec / tuples / iterators, nesting <= 3), 1-3 independent chains per invocation, length 1-8 plus closing; program i is forced to contain operator spelling i mod 22 and uses macro name i mod 12 (async macros: a sync chain closed with `-> ready`, `??` meaning `.inspect`); operands fully typed, in varied shapes (call returning a closure, typed closure, closure with return type, parenthesised, macro call, block capture), `~` at random positions in the non-try sync macros; inputs: 8 boundary seeds + proptest-free hash-derived seeds building the initial values (None / Err / empty and non-empty vectors included). Oracle: differential against the documented method chain with the same operand text compiled in the same binary - Debug of the result, ordered callback-invocation trace (per branch when branches run on threads), multiset of all events; the macro side not compiling while the reference side does is a violation, the reverse is a generator bug (exit 2). Non-trivial = >= 2 operators and >= 1 callback invoked on that input",
         Which::C10 => "chain stage: typed chains as in C01 (all 22 operator spellings forced in turn, all 12 macro names) with block captures on 35 % of the operands and the clone- and drop-counting value type `Ck` in half of the scalar positions (fold / try_fold initial values, iterator items, Option / Result payloads); oracle against the documented chain compiled in the same binary: equal multiset of evaluation events (every operand expression and capture once, every callback as often as the std method calls it - per element for iterator callbacks), equal number of clones of counted values, no counted value alive after the result is dropped. Non-trivial = >= 2 callbacks invoked and >= 1 capture",
+        Which::C17 => "nesting stage: typed chains under all 12 macro names in which 45 % of the callback operands are closures around a nested macro invocation (any of the 12 names, chosen by the type the operand must return; async ones driven by a no-op-waker poll loop), block captures that evaluate a nested invocation, and initial values that are macro invocations; nested bodies are generated by the same chain generator, recursively to depth 3 (wrappers, captures, further nestings inside). Oracle (metamorphic + differential): the outer macro against the documented chain with the same operand text - so every nested invocation is evaluated once inside a macro expansion and once in plain Rust - equal results, callback traces and event multisets. Non-trivial = >= 2 operators and >= 1 callback invoked; classes count nestings by place, inner macro and depth",
         Which::C19 => "bounds stage: typed chains under join! / try_join! / join_async! / try_join_async! with 1-7 branches whose values include `Ns` (holds an Rc: neither Send nor Clone) and `Mv` (move-only) in 60 % of the scalar positions, and half of whose branches borrow - shared (`&Vec` iterated) or mutably (`iter_mut` with a callback that changes the element in place) - from locals of the calling function; oracle: the macro side compiles whenever the documented chain compiles (a new Clone / Send / 'static requirement is a compile error on the macro side only) and both give the same result and callback traces. Non-trivial = >= 2 operators and >= 1 callback invoked",
         Which::C11 => "chain stage: typed chains in which program i is forced to contain hoistable operator i mod 18 (the 14 expression-operand operators, `^@` / `?^@` twice as often) with block operands on 60 % of the operand positions - both operands of fold / try_fold, operands inside nested wrappers, several per branch and step; oracle: per branch the sequence of capture evaluations equals the written (position) order, each exactly once. Non-trivial = >= 2 captures evaluated",
         Which::C02 => "programs: typed chains in which program i is forced to contain wrapper operator (i / 3) mod 10 with closing mode i mod 3 (explicit `<<<`, implicit at the end of a step, implicit at the end of the branch), nesting depth <= 3, inner chains of length 0-3 generated goal-directed for the type each wrapper needs (&T -> bool for ?> ?@ ?&!>, T -> Option for ?|> ?|>@ =>, E -> Result for <=, E -> E for !>, &W -> () for ??), inner block captures, operators after `<<<`; all 12 macro names; inputs and oracle as C01 with the reference `.x(|v| v inner...) rest`. Non-trivial = >= 2 operators and >= 1 callback invoked",
@@ -490,7 +518,7 @@ pub fn run(id: &str, tier: &str, seed: u64) -> i32 {
         "async macros are exercised with sync chains closed by `-> ready` (the repository's own idiom); chains over real futures / streams are not generated".into(),
     ];
     let known = evid::Known::load();
-    let mut runner = new_runner(seed, match which { Which::C01 => 0xc01, Which::C02 => 0xc02, Which::C10 => 0xc10, Which::C11 => 0xc11, Which::C19 => 0xc19 }, 1);
+    let mut runner = new_runner(seed, match which { Which::C01 => 0xc01, Which::C02 => 0xc02, Which::C10 => 0xc10, Which::C11 => 0xc11, Which::C19 => 0xc19, Which::C17 => 0xc17 }, 1);
     let mut progs: Vec<ChainProg> = Vec::new();
     let mut seen = HashSet::new();
     for i in 0..count {
@@ -507,6 +535,9 @@ pub fn run(id: &str, tier: &str, seed: u64) -> i32 {
             tally(&b.ops, &mut prev, &mut ev.classes, 0);
         }
         *ev.classes.entry(format!("macro {}", p.mac)).or_default() += 1;
+        for (place, inner, depth) in &p.nestings {
+            *ev.classes.entry(format!("nested in {} ({} inside {}) depth {}", place, if inner.contains("async") { "async" } else if inner.contains("spawn") { "spawn" } else { "sync" }, if p.mac.contains("async") { "async" } else if p.mac.contains("spawn") { "spawn" } else { "sync" }, depth + 1)).or_default() += 1;
+        }
     }
     // generator hole: every spelling must have been generated
     let mut holes = Vec::new();
